@@ -112,6 +112,12 @@ class Ev:
                 return "none"
             a = _strip(e["args"][0])
             return ("some", self.val(a["body"] if (e["name"] == "then" and a.get("k") == "Closure") else a, payload, loc_))
+        if k == "MethodCall" and e["name"] in ("or_else", "or") and len(e["args"]) == 1:
+            r = self.body(e["recv"], payload, loc_)
+            if r != "none":
+                return r
+            a = _strip(e["args"][0])
+            return self.body(a["body"] if a.get("k") == "Closure" else a, payload, loc_)
         if k == "MethodCall" and e["name"] == "filter" and len(e["args"]) == 1 and _strip(e["args"][0]).get("k") == "Closure":
             r = self.body(e["recv"], payload, loc_)
             if r == "none":
